@@ -63,8 +63,10 @@ func (i *interpreter) collectCells(v value, t types.Type, label string, g *guard
 		}
 		if depth > 1 {
 			// a nested object with its own mutex guards itself (checked by its own harness)
+			// (only a real lock counts: a flag from sync/atomic beside plain fields guards nothing the
+			// lock model could check, so such an object stays inside the guarded / frozen set)
 			for k := 0; k < tt.NumFields(); k++ {
-				if isSyncType(tt.Field(k).Type()) {
+				if isLockType(tt.Field(k).Type()) {
 					return
 				}
 			}
@@ -121,6 +123,14 @@ func isSyncType(t types.Type) bool {
 	}
 	p := n.Obj().Pkg().Path()
 	return p == "sync" || p == "sync/atomic"
+}
+
+func isLockType(t types.Type) bool {
+	n, ok := t.(*types.Named)
+	if !ok || n.Obj().Pkg() == nil {
+		return false
+	}
+	return n.Obj().Pkg().Path() == "sync" && (n.Obj().Name() == "Mutex" || n.Obj().Name() == "RWMutex")
 }
 
 func (i *interpreter) heldMode(mu *value) (writer bool, reader bool) {
